@@ -364,6 +364,10 @@ def twin(case):
         if k == "snap":
             if io.get("failed") or io.get("panic") or io.get("hang"):
                 return [dict(step=idx, what="snapshot-roundtrip-failed", detail=dict(cmd=strip(ln), obs=io))]
+            rt = io.get("resetTwins") or {}
+            if rt.get("panic") or ("plain" in rt and first_diff(rt.get("plain"), rt.get("reset"))):
+                # what the server does with a stored snapshot (import, then ResetWired) changes how the copy treats later operations
+                return [dict(step=idx, what="reset-copy-differs-from-plain-copy", detail=dict(cmd=strip(ln), plain=rt.get("plain"), reset=rt.get("reset"), panic=rt.get("panic")))]
             srcs[nrep] = r
             src_post = last_src.get(r)
             if src_post is not None:
